@@ -53,25 +53,51 @@ def run_fragment(body: Sequence[ast.stmt], names: Dict[str, Any], attrs: Optiona
             if isinstance(e, ast.Slice):
                 if e.lower is None and e.upper is None and e.step is None:
                     return "all"
-                raise Unfoldable("partial slice store")
+                return ("slice", fold(e.lower) if e.lower is not None else None, fold(e.upper) if e.upper is not None else None, fold(e.step) if e.step is not None else None)
             i = fold(e)
             if isinstance(i, int) and not isinstance(i, bool):
                 return i
+            if isinstance(i, list) and all(isinstance(t_, int) and not isinstance(t_, bool) for t_ in i):
+                return list(i)
             raise Unfoldable("store index")
 
         sl = t.slice
         parts = [part(e) for e in sl.elts] if isinstance(sl, ast.Tuple) else [part(sl)]
+        # bounded slices become explicit position lists along their axis
+        for ax, pr in enumerate(parts):
+            if isinstance(pr, tuple) and pr and pr[0] == "slice":
+                length = len(base) if ax == 0 else (len(base[0]) if base and isinstance(base[0], list) else 0)
+                if not all(x is None or (isinstance(x, int) and not isinstance(x, bool)) for x in pr[1:]):
+                    raise Unfoldable("slice bounds")
+                parts[ax] = list(range(length))[slice(pr[1], pr[2], pr[3])]
         try:
             if len(parts) == 1:
                 if parts[0] == "all":
                     base = v if isinstance(v, list) else [v for _ in base]
+                elif isinstance(parts[0], list):
+                    if isinstance(v, list) and len(v) == len(parts[0]):
+                        for k_, row_ in enumerate(parts[0]):
+                            base[row_] = copy.deepcopy(v[k_])
+                    else:
+                        for row_ in parts[0]:
+                            base[row_] = copy.deepcopy(v)
                 else:
                     base[parts[0]] = v
             elif len(parts) == 2:
                 r, c = parts
-                rows = list(range(len(base))) if r == "all" else [r]
+                if isinstance(c, list):
+                    if isinstance(r, list) or r == "all":
+                        raise Unfoldable("store with row and column lists")
+                    for k_, cc in enumerate(c):
+                        base[r][cc] = v[k_] if isinstance(v, list) else v
+                    env_store = True
+                    c = None
+                rows = [] if c is None else (list(range(len(base))) if r == "all" else (r if isinstance(r, list) else [r]))
+                multi = r == "all" or isinstance(r, list)
+                if multi and isinstance(v, list) and v and isinstance(v[0], list) and len(v) != len(rows):
+                    raise Unfoldable("store shape mismatch")
                 for k, row in enumerate(rows):
-                    val = v[k] if (r == "all" and isinstance(v, list)) else v
+                    val = v[k] if (multi and isinstance(v, list) and (c != "all" or (v and isinstance(v[0], list)))) else v
                     if c == "all":
                         base[row] = list(val) if isinstance(val, list) else [val for _ in base[row]]
                     else:
@@ -101,6 +127,14 @@ def run_fragment(body: Sequence[ast.stmt], names: Dict[str, Any], attrs: Optiona
         if m == "insert" and len(a) == 2 and isinstance(a[0], int):
             t = list(cur)
             t.insert(a[0], a[1])
+            env[nm] = mk(t)
+            return None
+        if m == "remove" and len(a) == 1:
+            t = list(cur)
+            try:
+                t.remove(a[0])
+            except ValueError as exc:
+                raise FragRaise() from exc
             env[nm] = mk(t)
             return None
         if m == "reverse" and not a:
@@ -141,8 +175,21 @@ def run_fragment(body: Sequence[ast.stmt], names: Dict[str, Any], attrs: Optiona
                 raise Unfoldable("step budget exhausted")
             if isinstance(st, ast.Expr):
                 c = st.value
-                if isinstance(c, ast.Call) and isinstance(c.func, ast.Attribute) and c.func.attr in ("append", "extend", "insert", "pop", "reverse") and isinstance(c.func.value, ast.Name) and isinstance(env.get(c.func.value.id), list):
+                if isinstance(c, ast.Call) and isinstance(c.func, ast.Attribute) and c.func.attr in ("append", "extend", "insert", "pop", "reverse", "remove") and isinstance(c.func.value, ast.Name) and isinstance(env.get(c.func.value.id), list):
                     list_method(c)
+                elif isinstance(c, ast.Call) and isinstance(c.func, ast.Attribute) and c.func.attr in ("add", "discard", "update") and isinstance(c.func.value, ast.Name) and isinstance(env.get(c.func.value.id), set) and len(c.args) == 1:
+                    cur_ = set(env[c.func.value.id])
+                    a_ = fold(c.args[0])
+                    try:
+                        if c.func.attr == "add":
+                            cur_.add(a_)
+                        elif c.func.attr == "discard":
+                            cur_.discard(a_)
+                        else:
+                            cur_.update(a_)
+                    except TypeError as exc:
+                        raise Unfoldable(str(exc))
+                    env[c.func.value.id] = cur_
                 continue
             if isinstance(st, ast.Pass):
                 continue
